@@ -874,6 +874,39 @@ func genOps(r, r2 *rand.Rand, t *Tree, v *env, nops int, now0 int64) []Op {
 			emit(Op{Kind: "headers", Peer: 1, Now: nowOK(), Nodes: nodeIDs(t.path(t.atHeight(int(ci.h)-1), ci.bad))})
 		}
 		syncTo(1, mainTip, v.r4)
+	case t.ctx2 != nil:
+		// a branch header that is judged differently on its own branch and
+		// in another context (the main chain's, or a scratch chain left
+		// over from a refused sibling); everything from the sync peer, no
+		// restart in between
+		xi := t.ctx2
+		nb := func() int64 { return xi.nowBig + int64(v.r4.Intn(300)) }
+		ps[1] = &pstate{leaf: xi.wTip, sent: xi.mainTip}
+		alive[1] = true
+		emit(Op{Kind: "newpeer", Peer: 1, Start: xi.wTip.Height, Last: xi.wTip.Height, Full: true})
+		firstPeer = 2
+		full := t.path(t.Nodes[0], xi.mainTip)
+		for i := 0; i < len(full); {
+			k := 4 + v.r4.Intn(9)
+			if i+k > len(full) {
+				k = len(full) - i
+			}
+			emit(Op{Kind: "headers", Peer: 1, Now: nb(), Nodes: nodeIDs(full[i : i+k])})
+			i += k
+		}
+		if v.r4.Intn(2) == 0 {
+			cfBatch(2+v.r4.Intn(5), false, nil)
+		}
+		if xi.s != nil {
+			emit(Op{Kind: "headers", Peer: 1, Now: nb(), Nodes: []int{xi.s.ID}})
+			if v.r4.Intn(3) == 0 {
+				cfBatch(1+v.r4.Intn(3), false, nil)
+			}
+		}
+		emit(Op{Kind: "headers", Peer: 1, Now: nb(), Nodes: nodeIDs(t.path(xi.fork, xi.wTip))})
+		if v.r4.Intn(3) == 0 {
+			emit(Op{Kind: "headers", Peer: 1, Now: nb(), Nodes: nodeIDs(t.path(xi.fork, xi.wTip))})
+		}
 	case t.stale != nil:
 		// two reorganisation attempts in a row, no restart and no change
 		// of the sync peer in between: X (tie or lighter: refused), then Y
@@ -1491,6 +1524,8 @@ func runHistory(id int, seed int64, nops int, base string, replay *History) (h H
 			t = genStaleCtxTree(r4, &ps, now0)
 		case smode >= 83 && smode < 90:
 			t = genShortHeavyTree(r4, &ps, now0)
+		case smode >= 95:
+			t = genCtx2Tree(r4, &ps, now0)
 		case smode >= 90 && smode < 95 && *propFlag != "C19":
 			t = genFlipTree(r4, &ps, now0)
 			t.rbf = true
@@ -1835,6 +1870,9 @@ func main() {
 		if envs[i].tree.cpinv != nil {
 			rep.Histogram["histories_invalid_extension_below_checkpoint_scenario"]++
 		}
+		if envs[i].tree.ctx2 != nil {
+			rep.Histogram["histories_branch_header_wrong_context_scenario"]++
+		}
 		if envs[i].tree.stale != nil {
 			rep.Histogram["histories_two_reorg_attempts_stale_context_scenario"]++
 		}
@@ -1865,7 +1903,7 @@ func main() {
 	rep.Evaluations = n
 	finishLong()
 	rep.DistinctNontrivial = len(distinct)
-	rep.Rule = "histories on the real blockManager handlers over real header stores: a random block tree (main chain 8-30, up to 4 forks incl. work ties and longer branches, single-rule corruptions: pow, bits, time-old, time-new, version) under random parameters (retarget interval 3-8, no-retarget / min-difficulty / BIP94 flags, 0-3 checkpoints, in-memory window 2..10000) revealed by 1-4 peers in chunks, duplicates, overlaps, unconnected batches, with inv, peer arrivals/departures, filter-header batches; scenario histories from a separate PRNG stream: (15%) two checkpoints closer together than one headers message with a valid branch leaving the main chain right after the first one, ONE message from the sync peer through both checkpoint heights while the tip is below the first; (-prop C19, 45%) main chain synced, filter headers committed in batches of >= 3 up to the tip, then a longer valid branch forking >= 2 blocks below the tip, then batches on the new branch; histories with restarts from a third PRNG stream (30%): a restart builds a NEW blockManager (newBlockManager through the verif hook) over the SAME stores, re-installs the notification plumbing and forgets all peers, which have to connect again; (12%) scripted: main chain synced under no-retargeting, filter headers committed, restart, then the new sync peer reveals an equal-work and a lighter branch forking >= 2 blocks below the stored tip (below the whole in-memory window: refused) and a heavier one (adopted); (18%) a restart right before a peer reveals a fork below the stored tip, or at a random point; scenario histories from a fourth PRNG stream: (10%) checkpoint fork under no-retargeting: the client follows a side branch whose tip is exactly ONE BELOW a checkpoint when the heavier main chain through the checkpoint is revealed (handed over by peer departure, restart, or a second peer), or its tip is exactly ON the checkpoint when a heavier branch forking below it is revealed (refused), then a heavier branch forking exactly AT the reached checkpoint (adopted); (10%) flip-flop on one running store: A synced, top of A sent again, heavier B adopted, then A extended by 2-3 headers comes back (adopted), from the same or another peer; (8%) two checkpoints closer together than one message, the client on a side branch below the first: ONE competing message from the fork point through both checkpoint heights that matches the first and contradicts the second (invalid: chain unchanged), then the control matching both; in flip-flop histories and the random stream also messages whose first header (stored, or a valid child of the stored tip) is not the parent of the second while the rest is linked; (15%) a checkpoint above the tip and a single-rule-invalid header (time-old / bits with a valid proof of work for the wrong bits / version / time-new / pow) in EXTENSION position below it, alone or as the suffix of a batch with a valid prefix; (10%) retargeting at a difficulty above the minimum with one period far shorter than timespan/4 and one far longer than timespan*4: at both retarget heights the header computed WITHOUT the clamp (refused, in extension and in reorg position) and the clamped one (accepted); in flip-flop and restart-fork histories also a reorganising message whose linked part only ties with the headers it would displace and whose LAST header does not build on the one before it; (7%) two reorganisation attempts in a row on one running block manager: sibling branches A (accepted) and X (tie or one header lighter, refused) whose timestamps lie many median windows apart (X far earlier or far later), then a longer branch Y forking at an A header whose height X covers, its first header's timestamp between the true median time and the one computed over X (invalid Y: refused; valid Y: adopted); (7%) a fork below a retarget boundary whose branch has FEWER headers than it displaces but strictly more work because one of the two retarget clamps binds (branch period far shorter than timespan/4, or the accepted chain's far longer than timespan*4), revealed in one message (adopted); (5%, not with -prop C19) a heavier branch arrives while the block header file cannot be truncated: the k-th BlockHeaders.RollbackLastBlock of the reorganisation fails like a failed ftruncate (index rolled back, bytes still in the file; injected through the file wrapper of the real store), the handler's panic is the death of the process: both stores are re-opened through their constructors (start-up recovery), a new block manager is built, the peers connect again and the branch is offered once more (operation OHeadersR); the same fault also strikes random headers messages of histories without checkpoints; (8%) the batch reaching a checkpoint is lost to a failing BlockHeaders.WriteHeaders, then a branch connecting to the stored tip with a different header at the checkpoint height; (15%) the k-th WriteHeaders call (k = 1, 2) of random headers messages fails (a wrapper around the block header store; operation OHeadersF); a restart also closes and re-opens both header stores; with -prop C19 also two fixed long-chain backlog histories (both header stores filled with ~4500 entries, a real block manager over them, NotificationsSinceHeight from 2002/2001/2000/1999 blocks below the committed tip, 1, 100, the tip, one above and 0; run-length encoded, judged by coq/C19/ReplayLong.v); with -prop C19 every operation runs against an unbuffered notification channel and NotificationsSinceHeight is probed while the handler is blocked on event k and after it returned (histogram backlog_probes*), also with the n-th FetchHeaderByHeight of the request made to fail through a wrapper of the block header store (backlog_requests_with_read_fault); non-trivial = the history contains a rollback/reorganisation (disconnect events) and committed filter headers (connect events); distinct = distinct op-kind signature"
+	rep.Rule = "histories on the real blockManager handlers over real header stores: a random block tree (main chain 8-30, up to 4 forks incl. work ties and longer branches, single-rule corruptions: pow, bits, time-old, time-new, version) under random parameters (retarget interval 3-8, no-retarget / min-difficulty / BIP94 flags, 0-3 checkpoints, in-memory window 2..10000) revealed by 1-4 peers in chunks, duplicates, overlaps, unconnected batches, with inv, peer arrivals/departures, filter-header batches; scenario histories from a separate PRNG stream: (15%) two checkpoints closer together than one headers message with a valid branch leaving the main chain right after the first one, ONE message from the sync peer through both checkpoint heights while the tip is below the first; (-prop C19, 45%) main chain synced, filter headers committed in batches of >= 3 up to the tip, then a longer valid branch forking >= 2 blocks below the tip, then batches on the new branch; histories with restarts from a third PRNG stream (30%): a restart builds a NEW blockManager (newBlockManager through the verif hook) over the SAME stores, re-installs the notification plumbing and forgets all peers, which have to connect again; (12%) scripted: main chain synced under no-retargeting, filter headers committed, restart, then the new sync peer reveals an equal-work and a lighter branch forking >= 2 blocks below the stored tip (below the whole in-memory window: refused) and a heavier one (adopted); (18%) a restart right before a peer reveals a fork below the stored tip, or at a random point; scenario histories from a fourth PRNG stream: (10%) checkpoint fork under no-retargeting: the client follows a side branch whose tip is exactly ONE BELOW a checkpoint when the heavier main chain through the checkpoint is revealed (handed over by peer departure, restart, or a second peer), or its tip is exactly ON the checkpoint when a heavier branch forking below it is revealed (refused), then a heavier branch forking exactly AT the reached checkpoint (adopted); (10%) flip-flop on one running store: A synced, top of A sent again, heavier B adopted, then A extended by 2-3 headers comes back (adopted), from the same or another peer; (8%) two checkpoints closer together than one message, the client on a side branch below the first: ONE competing message from the fork point through both checkpoint heights that matches the first and contradicts the second (invalid: chain unchanged), then the control matching both; in flip-flop histories and the random stream also messages whose first header (stored, or a valid child of the stored tip) is not the parent of the second while the rest is linked; (15%) a checkpoint above the tip and a single-rule-invalid header (time-old / bits with a valid proof of work for the wrong bits / version / time-new / pow) in EXTENSION position below it, alone or as the suffix of a batch with a valid prefix; (10%) retargeting at a difficulty above the minimum with one period far shorter than timespan/4 and one far longer than timespan*4: at both retarget heights the header computed WITHOUT the clamp (refused, in extension and in reorg position) and the clamped one (accepted); in flip-flop and restart-fork histories also a reorganising message whose linked part only ties with the headers it would displace and whose LAST header does not build on the one before it; (7%) two reorganisation attempts in a row on one running block manager: sibling branches A (accepted) and X (tie or one header lighter, refused) whose timestamps lie many median windows apart (X far earlier or far later), then a longer branch Y forking at an A header whose height X covers, its first header's timestamp between the true median time and the one computed over X (invalid Y: refused; valid Y: adopted); (7%) a fork below a retarget boundary whose branch has FEWER headers than it displaces but strictly more work because one of the two retarget clamps binds (branch period far shorter than timespan/4, or the accepted chain's far longer than timespan*4), revealed in one message (adopted); (5%, not with -prop C19) a heavier branch arrives while the block header file cannot be truncated: the k-th BlockHeaders.RollbackLastBlock of the reorganisation fails like a failed ftruncate (index rolled back, bytes still in the file; injected through the file wrapper of the real store), the handler's panic is the death of the process: both stores are re-opened through their constructors (start-up recovery), a new block manager is built, the peers connect again and the branch is offered once more (operation OHeadersR); the same fault also strikes random headers messages of histories without checkpoints; (5%) a branch header judged in the wrong context: a branch longer than the main chain forking 6-8 blocks below the tip whose own (or the main chain's) timestamps run many median windows ahead, its header at exactly tip+1 between the two medians (invalid on its own branch, or valid but too old on the main chain's); or a refused one-header sibling S of a stored non-tip header M with the lowest timestamp the median rule allows (or M with it), then a longer branch forking AT M whose first header's timestamp lies between the median with S and the median with M; (8%) the batch reaching a checkpoint is lost to a failing BlockHeaders.WriteHeaders, then a branch connecting to the stored tip with a different header at the checkpoint height; (15%) the k-th WriteHeaders call (k = 1, 2) of random headers messages fails (a wrapper around the block header store; operation OHeadersF); a restart also closes and re-opens both header stores; with -prop C19 also two fixed long-chain backlog histories (both header stores filled with ~4500 entries, a real block manager over them, NotificationsSinceHeight from 2002/2001/2000/1999 blocks below the committed tip, 1, 100, the tip, one above and 0; run-length encoded, judged by coq/C19/ReplayLong.v); with -prop C19 every operation runs against an unbuffered notification channel and NotificationsSinceHeight is probed while the handler is blocked on event k and after it returned (histogram backlog_probes*), also with the n-th FetchHeaderByHeight of the request made to fail through a wrapper of the block header store (backlog_requests_with_read_fault); non-trivial = the history contains a rollback/reorganisation (disconnect events) and committed filter headers (connect events); distinct = distinct op-kind signature"
 	for i := 0; i < n && i < 2; i++ {
 		rep.Samples = append(rep.Samples, hs[i])
 	}
